@@ -124,6 +124,31 @@ def _work(item):
     return item, out
 
 
+def _padded_case(item):
+    """kernels above the 50-line threshold: the real multi-process search must report the same
+    cycles as the reference (roots in the last lines, lengths that do not divide evenly)"""
+    famname, idxs, pad, cpu = item
+    import osaca.semantics.kernel_dg as kd
+    fam = _FAM[famname]
+    a, w, b = dgfam.POOLS[fam.isa]["gprA" if fam.isa == "x86" else "gpr"]
+    filler = fam.ri_reg("mv0", (b, b))   # writes b from b with latency 0: a cycle of its own
+    tail = [_ALPHA[famname][i][1] for i in idxs]
+    ris = [filler] * pad + tail
+    out = {"bad": [], "n": 0, "skip": 0, "sig": []}
+    saved = kd.cpu_count
+    try:
+        kd.cpu_count = lambda: cpu
+        kernel, g = dgfam.observe(fam, ris, False, timeout=-1)
+        probs, n, skip, sig = compare_lcd(fam, _FE[famname], ris, kernel, g, False)
+        out["n"], out["skip"], out["sig"] = n, skip, [sig]
+        out["bad"] = [(kind, False, what) for kind, what in probs]
+    except Exception:
+        out["bad"].append(("exception", False, traceback.format_exc()[-1200:]))
+    finally:
+        kd.cpu_count = saved
+    return item, out
+
+
 def _items(ctx):
     items = []
     for famname in _FAM:
@@ -149,6 +174,30 @@ def run(ctx):
     res = core.Result()
     setup(ctx)
     out = core.pmap(_work, core.rotate(_items(ctx), ctx.seed))
+    # multi-process search (>= 50 lines) with real worker processes
+    pitems = []
+    for famname in ("x86", "a64"):
+        names = [k for k, (key, ri) in enumerate(_ALPHA[famname])
+                 if key[0] in ("opbs", "tie", "opsb")][:6]
+        for pad in (47, 48, 49, 50, 51):
+            for cpu in ((2, 3, 16) if ctx.thorough else (3, 16)):
+                for t in ((names[0], names[1], names[2]), (names[3], names[4], names[0])):
+                    pitems.append((famname, t, pad, cpu))
+    pout = core.pmap(_padded_case, pitems, chunk=1)
+    for (famname, idxs, pad, cpu), o in pout:
+        res.states += 1
+        res.traces += 1
+        res.transitions += o["n"]
+        res.nontrivial += 1
+        ris = [_ALPHA[famname][i][1] for i in idxs]
+        for kind, flags, what in o["bad"]:
+            res.violations.append(core.Violation(
+                {"kind": kind, "isa": _FAM[famname].isa, "flags": False, "sparse_lines": False,
+                 "multi_process": True},
+                "[%s %d filler lines + %r, %d workers] %s"
+                % (famname, pad, [r.text for r in ris], cpu, what),
+                {"family": famname, "idxs": list(idxs), "pad": pad, "cpu": cpu, "what": what}))
+    res.extra["multi_process_kernels"] = len(pitems)
     for (famname, idxs, sl), o in out:
         res.states += 1
         res.traces += 1
@@ -186,6 +235,11 @@ def run(ctx):
 def replay(ctx, payload):
     setup(ctx)
     r = payload["replay"]
+    if "pad" in r:
+        _, o = _padded_case((r["family"], tuple(r["idxs"]), r["pad"], r["cpu"]))
+        for b in o["bad"]:
+            print(b)
+        return 1 if o["bad"] else 0
     _, o = _work((r["family"], tuple(r["idxs"]), r["start_line"]))
     for b in o["bad"]:
         print(b)
